@@ -353,13 +353,26 @@ def havoc_for_call(eng, c, b, s, spec_st, label):
     if is_pure_contract(c):
         return
     old_heap = s.heap
+    from .values import RefSet, in_frame
     refs = []
     for m in c.modifies:
         v = spec_value(eng, m, spec_st, b)
+        if isinstance(v, RefSet):
+            refs.append(v)
+            continue
         v = eng.as_val(s, v)
         refs.append(get_ref(v.t))
     for r in refs:
-        eng.check_write(s, r, "callee")
+        if isinstance(r, RefSet):
+            # the callee's frame must lie within the caller's: for every reference of the set
+            q = z3.Int("fs_r")
+            eng.oblige(f"{label}.frame.set", s,
+                       z3.ForAll([q], z3.Implies(r.pred(q), z3.Or(q >= eng.entry_alloc, in_frame(q, eng.modifies_refs)))), "frame")
+            for (a0, lrefs, llabel) in eng.frame_stack:
+                eng.oblige(f"{label}.{llabel}.frame.set", s,
+                           z3.ForAll([q], z3.Implies(r.pred(q), z3.Or(q >= a0, in_frame(q, lrefs)))), "frame")
+        else:
+            eng.check_write(s, r, "callee")
     if not refs:
         # the callee writes nothing that existed before the call (its own frame obligations): the heap
         # arrays are kept; its fresh objects live in [alloc, alloc') whose cells nothing has constrained yet
@@ -373,7 +386,7 @@ def havoc_for_call(eng, c, b, s, spec_st, label):
         fields = list(old_heap.fld.keys()) if refs else []
     kinds = list(ARR_KINDS) if (refs or True) else []
     new = old_heap.havoc(kinds, fields, "call")
-    may = (lambda r: z3.Or([r == x for x in refs])) if refs else (lambda r: z3.BoolVal(False))
+    may = (lambda r: in_frame(r, refs))
     s.heap = new
     s.assume(*new.frame_facts(old_heap, kinds, fields, may))
     s.assume(*new.closed_facts())
